@@ -606,15 +606,15 @@ def gen_learners_case(rng, small=False):
 
 def generate(rng, tier, mult):
     out = [{"kind": "range", "n": n} for n in range(5)]
-    n_parts = (230 if tier == "quick" else 900) * mult
-    n_learn = (100 if tier == "quick" else 450) * mult
+    n_parts = (230 if tier == "quick" else 2500) * mult
+    n_learn = (100 if tier == "quick" else 1200) * mult
     for _ in range(n_parts):
         out.append(gen_parts_case(rng, small=rng.random() < 0.5))
     if tier != "quick":
         # every order of the parts for families of <= 3 parts
         extra = []
         for c in out:
-            if c["kind"] == "parts" and 2 <= len(c["parts"]) <= 3 and c["tag"] in ("partition", "overlap") and len(extra) < 600:
+            if c["kind"] == "parts" and 2 <= len(c["parts"]) <= 3 and c["tag"] in ("partition", "overlap") and len(extra) < 1500:
                 for perm in list(itertools.permutations(c["parts"]))[1:]:
                     d = dict(c)
                     d["parts"] = [list(p) for p in perm]
@@ -623,7 +623,7 @@ def generate(rng, tier, mult):
         out += extra
     for _ in range(n_learn):
         out.append(gen_learners_case(rng, small=rng.random() < 0.5))
-    for _ in range((60 if tier == "quick" else 600) * mult):
+    for _ in range((60 if tier == "quick" else 1500) * mult):
         out.append({"kind": "link", "req": sorted_like_pipeline(gen_req(rng, max_funcs=4))})
     return out
 
